@@ -379,6 +379,27 @@ def run(ctx) -> list[Inst]:
                              + ' - the same kind of payload is serialised differently (the raw form is '
                                'not JSON-serialisable / is not what the reader restores)'),
                         file=odd.func.module.relpath, line=getattr(odd.value, 'lineno', 0), props=props))
+        # ---------------------------------------------------------------- (xii) containers are filled
+        for path, wl in sorted(wby.items()):
+            if path[-1] == '*':
+                continue
+            w = wl[0]
+            if not (isinstance(w.value, (ast.Dict, ast.List)) and not (getattr(w.value, 'keys', None) or getattr(w.value, 'elts', None))):
+                continue
+            if len(wl) > 1 or not [r for r in rby.get(path, []) if r.kind in ('sub', 'get')]:
+                continue
+            construct = f"(xii) {cd['name']}: container {'/'.join(path)} written empty is filled before it is saved"
+            filled = any(len(p) > len(path) and p[:len(path)] == path for p in wby)
+            if filled:
+                insts.append(Inst(RULE, w.func.short, construct, 'ok', file=w.func.module.relpath,
+                                  line=w.value.lineno, props=props))
+            else:
+                insts.append(Inst(
+                    RULE, w.func.short, construct, 'violation',
+                    msg=(f"'{path[-1]}' is written as the empty literal '{stmt_text(w.value)}' and nothing is ever "
+                         f"stored into it, but {rf.short} restores the field from its members: whatever the object "
+                         f"held is lost on save"),
+                    file=w.func.module.relpath, line=w.value.lineno, props=props))
     insts += _id_keys(ctx)
     insts += _extensions(ctx)
     insts += _file_layer(ctx)
